@@ -118,7 +118,16 @@ def uncommit(
         if not dry_run:
             if master is not None:
                 master.set_last_revision_info(new_revno, new_revision_id)
-            branch.set_last_revision_info(new_revno, new_revision_id)
+            try:
+                branch.set_last_revision_info(new_revno, new_revision_id)
+            except Exception:
+                # The bound branch itself refused (append_revisions_only, a
+                # pre_change_branch_tip hook, ...) after its master had
+                # already been moved: do not leave the master rewound while
+                # the branch and the tree stay where they were.
+                if master is not None:
+                    master.set_last_revision_info(old_revno, old_tip)
+                raise
             if master is None:
                 hook_local = None
                 hook_master = branch
